@@ -12,9 +12,10 @@
 (* property is silent).                                                      *)
 EXTENDS FsBase
 
-AllDevs == {"C05.dup_names_tuple_width"}
+AllDevs == {"C05.dup_names_tuple_width", "C05.description_follows_current_table"}
 
-Shapes == {"one", "three", "dup", "aliasdup", "quoted", "types", "dml"}
+\* star0 / star1: SELECT * FROM shp - the SAME statement text - while shp has its first / its second layout (op "reshape")
+Shapes == {"one", "three", "dup", "aliasdup", "quoted", "types", "dml", "star0", "star1"}
 Names(sh) == CASE sh = "one"      -> <<"A">>
                [] sh = "three"    -> <<"A", "B", "C">>
                [] sh = "dup"      -> <<"A", "A">>
@@ -23,9 +24,11 @@ Names(sh) == CASE sh = "one"      -> <<"A">>
                [] sh = "types"    -> <<"ID", "S", "F", "B", "D", "TS", "N">>
                \* the one-row status result of a DML statement; its only cell is the affected count
                [] sh = "dml"      -> <<"number of rows inserted">>
+               [] sh = "star0"    -> <<"ID", "NAME">>
+               [] sh = "star1"    -> <<"ID", "LABEL", "SCORE">>
 Width(sh) == Len(Names(sh))
 
-NoCursor == [cur |-> "none", open |-> FALSE, n |-> 0, idx |-> 0, asz |-> 1, sh |-> "one", rc |-> -1]
+NoCursor == [cur |-> "none", open |-> FALSE, n |-> 0, idx |-> 0, asz |-> 1, sh |-> "one", rc |-> -1, lay |-> 0]
 InitSt == NoCursor
 
 \* ---- observations (one shape for every operation) ----
@@ -66,14 +69,17 @@ Deliver(st, a, b, D) ==
 
 Steps(st, op, D) ==
   CASE op.k = "open" ->
-         LET s2 == [NoCursor EXCEPT !.cur = IF op.dict THEN "dict" ELSE "tuple"] IN {R(s2, Plain("ok", s2))}
+         LET s2 == [NoCursor EXCEPT !.cur = IF op.dict THEN "dict" ELSE "tuple", !.lay = st.lay] IN {R(s2, Plain("ok", s2))}
     [] op.k = "exec" ->
          \* via "x": cursor.execute; "s1" / "s2": the statement is the first / last of a two-statement script given to
          \* connection.execute_string, and the cursor returned for it becomes the current cursor (a new cursor of the same
          \* class, default arraysize) - every statement of a script has its own cursor and its own result
-         LET s2 == [st EXCEPT !.open = TRUE, !.n = op.n, !.idx = 0, !.sh = op.sh, !.rc = op.n,
+         LET sh2 == IF op.sh = "star" THEN (IF st.lay = 0 THEN "star0" ELSE "star1") ELSE op.sh
+             s2 == [st EXCEPT !.open = TRUE, !.n = op.n, !.idx = 0, !.sh = sh2, !.rc = op.n,
                               !.asz = IF op.via = "x" THEN @ ELSE 1] IN
          {R(s2, Plain("ok", s2))}
+    [] op.k = "reshape" ->   \* the table behind SELECT * gets other columns; the result the cursor holds is not affected
+         LET s2 == [st EXCEPT !.lay = 1 - @] IN {R(s2, Plain("ok", s2))}
     [] op.k = "dml" ->
          \* a DML statement affecting op.a rows: one status row holding the count, rowcount = the count
          LET s2 == [st EXCEPT !.open = TRUE, !.n = 1, !.idx = 0, !.sh = "dml", !.rc = op.a] IN
@@ -94,21 +100,28 @@ Steps(st, op, D) ==
     [] op.k = "all" ->
          IF ~st.open THEN {R(st, Plain("noresult", st))} ELSE Deliver(st, st.idx + 1, st.n, D)
     [] op.k = "pandas" ->
-         \* "agrees with those rows": the whole result, or what has not been fetched yet; may or may not drain
+         \* "agrees with those rows" and with rowcount: the whole result, wherever the fetch index stands (the connector builds
+         \* the frame from all batches of the result set); whether it also drains the row iterator is not fixed
          IF ~st.open THEN {R(st, Plain("noresult", st))}
-         ELSE {R(p, Obs("rows", Range(a, st.n), IF a > st.n THEN <<>> ELSE Range(1, Width(st.sh)), Names(st.sh), st.rc))
-                 : a \in {1, st.idx + 1}, p \in {st, [st EXCEPT !.idx = st.n]}}
+         ELSE {R(p, Obs("rows", Range(1, st.n), IF st.n = 0 THEN <<>> ELSE Range(1, Width(st.sh)), Names(st.sh), st.rc))
+                 : p \in {st, [st EXCEPT !.idx = st.n]}}
     [] op.k = "descr" ->
          \* reading description is a stutter step; defined here only with a result set (C06 covers the rest)
          {R(st, Obs("descr", <<>>, <<>>, Names(st.sh), st.rc))}
+         \* as built description is computed when it is READ, by describing the statement text again: after the table behind
+         \* SELECT * got other columns it names those, not the columns of the result the cursor holds
+         \cup (IF "C05.description_follows_current_table" \in D /\ st.sh \in {"star0", "star1"} /\ st.sh # (IF st.lay = 0 THEN "star0" ELSE "star1")
+               THEN {R(st, Obs("descr", <<>>, <<>>, Names(IF st.lay = 0 THEN "star0" ELSE "star1"), st.rc))} ELSE {})
 
 \* ---- operations offered in a state (generator vocabulary) ----
-CONSTANTS MaxN, MaxK, MaxA, ShapesUsed, ViaUsed
-Ops(st) ==
+CONSTANTS MinN, MaxN, MaxK, MaxA, ShapesUsed, ViaUsed, OpsUsed
+AllOps(st) ==
   IF st.cur = "none" THEN [k : {"open"}, dict : BOOLEAN]
-  ELSE [k : {"exec"}, n : 0..MaxN, sh : ShapesUsed, via : ViaUsed] \cup [k : {"dml"}, a : 0..2] \cup [k : {"execfail", "one", "manydef", "all", "pandas"}]
+  ELSE [k : {"reshape"}] \cup [k : {"exec"}, n : MinN..MaxN, sh : ShapesUsed, via : ViaUsed] \cup [k : {"dml"}, a : 0..2] \cup [k : {"execfail", "one", "manydef", "all", "pandas"}]
        \cup [k : {"many"}, size : 1..MaxK] \cup [k : {"asz"}, a : 1..MaxA]
        \cup (IF st.open THEN [k : {"descr"}] ELSE {})
+
+Ops(st) == {o \in AllOps(st) : o.k \in OpsUsed}
 
 \* ---- the property, as predicates over a step ----
 \* ExactlyOnce / InOrder: every fetch delivers exactly the next undelivered positions
@@ -119,5 +132,6 @@ StepOk(st, op, r) ==
         /\ (op.k = "all" => r.post.idx = st.n)
         /\ (r.obs.rows # <<>> /\ st.cur = "tuple" => Len(r.obs.cols) = Width(st.sh))
   /\ (op.k \notin {"exec", "dml", "execfail", "open"} => r.post.n = st.n /\ r.post.sh = st.sh /\ r.post.open = st.open)
+  /\ (op.k = "reshape" => r.post.idx = st.idx)
   /\ (op.k = "descr" => r.post = st)
 =============================================================================
